@@ -133,6 +133,13 @@ inline void Epoch::unlock() noexcept {
 }
 
 inline void Epoch::unregister_accessor(size_t index) noexcept {
+  // an Accessor released while still locked must not keep holding the low water mark,
+  // nor hand its lock count to the next Accessor that reuses the slot
+  auto& slot = _slots[index];
+  if (slot.lock_times != 0) {
+    slot.lock_times = 0;
+    slot.version.store(UINT64_MAX, ::std::memory_order_release);
+  }
   _id_allocator.deallocate(index);
 }
 
